@@ -74,7 +74,7 @@ class C03(Prop):
           '(k, None) / (None, k) / (k1, k2) with k1 != k2 in either order, as tuple / list / ndarray, reserve 0 and >0; 12 %: parameter changed through its setter after a first read of .constraints) x ADevice user constraints (eq/ineq, with/without jac, with a harmless extra dict key, vector-valued with one slack per slot); probes: interior, box vertices, '
           'exactly on a cumulative limit, 1/64 inside/outside it, outside the box, storage over/under-fill, plus one all-integer flow passed as an INTEGER-typed array; flows presented as (n,) or (1, n); the list taken from the first or the second read of .constraints. non-trivial: >= 1 cumulative '
           'bound or storage, and the probes fall on both sides of >= 1 documented constraint')
-  sizes = {'quick': 1000, 'thorough': 8000}
+  sizes = {'quick': 1000, 'thorough': 6000}
   assumptions = ['T2 compares, per exported constraint, (type, value at each probe flow), as a multiset: each model row is paired with the nearest unused implementation row (no rounding, no sort key)',
                  'oracle membership tolerance: member iff every slack >= -1e-9*scale; a disagreement counts only if the other side is beyond 1e-8*scale',
                  'oracle semantics are taken from the case description (bounds, cbounds, storage parameters, user constraints as data), '
